@@ -708,6 +708,11 @@ func work(w *mon.W) {
 		var wg sync.WaitGroup
 		var mu sync.Mutex
 		bad := ""
+		type keptBody struct {
+			id   string
+			body []byte
+		}
+		var kept []keptBody
 		for i := 0; i < n; i++ {
 			id := fmt.Sprintf("g%d-%d", c.G, i)
 			plan := "ok"
@@ -716,15 +721,29 @@ func work(w *mon.W) {
 				plan, timeout = "slow", 15*time.Millisecond
 			}
 			useDeadline := r.Bool()
-			desc = append(desc, fmt.Sprintf("%s plan=%s timeout=%v deadlineAPI=%v", id, plan, timeout, useDeadline))
+			withDst := r.Bool()
+			desc = append(desc, fmt.Sprintf("%s plan=%s timeout=%v deadlineAPI=%v dst=%v", id, plan, timeout, useDeadline, withDst))
 			call := func() {
 				url := fmt.Sprintf("http://peer/x?id=%s&plan=%s", id, plan)
 				var body []byte
 				var err error
+				// the documented use with a buffer of the caller's: "the contents of dst will
+				// be replaced by the body and returned"
+				var dst []byte
+				if withDst {
+					dst = make([]byte, 0, 256)
+				}
 				if useDeadline {
-					_, body, err = hc.GetDeadline(context.Background(), nil, url, time.Now().Add(timeout))
+					_, body, err = hc.GetDeadline(context.Background(), dst, url, time.Now().Add(timeout))
 				} else {
-					_, body, err = hc.GetTimeout(context.Background(), nil, url, timeout)
+					_, body, err = hc.GetTimeout(context.Background(), dst, url, timeout)
+				}
+				if err == nil {
+					// what was returned is the caller's from now on: it is looked at again when
+					// all the other exchanges of this run are over
+					mu.Lock()
+					kept = append(kept, keptBody{id, body})
+					mu.Unlock()
 				}
 				w.Count("get_timeout_calls", 1)
 				if err == nil && !strings.HasPrefix(string(body), "id="+id+";") {
@@ -750,6 +769,22 @@ func work(w *mon.W) {
 		// let abandoned background requests finish, then drop the connections
 		time.Sleep(80 * time.Millisecond)
 		hc.CloseIdleConnections()
+		// a few exchanges through pooled Response objects, as any other code in the process
+		// might do them, then the bodies handed out earlier are read again
+		for k := 0; k < 4; k++ {
+			req, resp := protocol.AcquireRequest(), protocol.AcquireResponse()
+			req.SetRequestURI(fmt.Sprintf("http://peer/x?id=later%d-%d&plan=ok", c.G, k))
+			hc.Do(context.Background(), req, resp) //nolint:errcheck
+			protocol.ReleaseRequest(req)
+			protocol.ReleaseResponse(resp)
+		}
+		hc.CloseIdleConnections()
+		for _, kb := range kept {
+			if !strings.HasPrefix(string(kb.body), "id="+kb.id+";") {
+				c.Violate("returned-body-overwritten", "the body returned for %s reads %q after later, unrelated exchanges: the slice handed to the caller is still the storage of a pooled buffer; calls %v", kb.id, trunc(string(kb.body), 60), desc)
+				break
+			}
+		}
 		w.Shape(mon.Hash64("get-timeout", strings.Join(desc, ";")))
 	})
 	// the pending-gauge family: Do with an already-cancelled context must leave the gauge at 0
@@ -779,4 +814,11 @@ func work(w *mon.W) {
 		hc.CloseIdleConnections()
 		w.Count("cancelled_family_runs", 1)
 	})
+}
+
+func trunc(s string, n int) string {
+	if len(s) > n {
+		return s[:n] + "…"
+	}
+	return s
 }
